@@ -168,8 +168,9 @@ func genScenario(rng *Rng, kind string) *Scenario {
 		for i := range s.tasks {
 			// corepc: InitialDagIns hands a task with several parents to Push once per path that reaches it; when a
 			// pre-check fires the verdict is then written, and the parser told, as many times.  The Engine model pushes
-			// a task once, so the acceptor's scope excludes pre-checks on multi-parent tasks (DESIGN.md 0.8).
-			if rng.Chance(1, 3) && (kind != "corepc" || len(s.tasks[i].deps) <= 1) {
+			// a task once, so the acceptor's scope excludes pre-checks on tasks reached by more than one path - several
+			// parents, or one parent that is itself reached by several paths (DESIGN.md 0.8).
+			if rng.Chance(1, 3) && (kind != "corepc" || pathCount(s.tasks, i) <= 1) {
 				act := []entity.ActiveAction{entity.ActiveActionSkip, entity.ActiveActionBlock}[rng.Intn(2)]
 				cond := entity.TaskCondition{Source: entity.TaskConditionSourceVars, Key: "v", Op: entity.OperatorIn, Values: []string{"1"}}
 				switch rng.Intn(4) {
@@ -300,6 +301,29 @@ func genScenario(rng *Rng, kind string) *Scenario {
 		s.retries = 1
 		s.continues = 0
 		s.dupPush = true
+	case "duppath":
+		// a task reached by two paths (t5 <- t2, t4 <- t1) with an executable sibling between its two occurrences in
+		// the tree walk (t1's children are t2, t3, t4), one executor worker.  t3 and t5 are blocked by a pre-check; the
+		// continue command re-arms both and the re-initialisation hands t5, t3, t5 to the executor: the second t5 waits
+		// behind t3 in the init queue until the first t5 has run (and failed) and left the cancel map.
+		s.tasks = []taskSpec{
+			{id: "t1", action: "A"},
+			{id: "t2", action: "A", deps: []string{"t1"}},
+			{id: "t3", action: "A", deps: []string{"t1"}},
+			{id: "t4", action: "A", deps: []string{"t1"}},
+			{id: "t5", action: "AF", deps: []string{"t2", "t4"}}, // with a before hook: the run parks in status 'continue'
+		}
+		blk := entity.PreChecks{"b": {Act: entity.ActiveActionBlock, Conditions: []entity.TaskCondition{{Source: entity.TaskConditionSourceVars, Key: "v", Op: entity.OperatorIn, Values: []string{"1", "2"}}}}}
+		s.tasks[2].pre = blk
+		s.tasks[4].pre = blk
+		s.scripts = map[string][]phaseScript{"t5/run": {{outcome: 1}, {}, {}}}
+		s.execWorkers = 1
+		s.parserWorkers = 1
+		s.retries = 1
+		s.continues = 2
+		s.crashAt = nil
+		s.cancelAt = -1
+		s.closeAt = -1
 	case "tracefault":
 		// every phase traces (buffered and immediate); one status write of some task fails
 		for _, t := range s.tasks {
@@ -1448,4 +1472,20 @@ func (e *Engine) directedLateExit(phase int, kp interface{ VerifHeartBeat() erro
 		return 1
 	}
 	return phase
+}
+
+// pathCount: number of root-to-task paths in the task tree (a task without dependencies hangs under the virtual root).
+func pathCount(ts []taskSpec, i int) int {
+	if len(ts[i].deps) == 0 {
+		return 1
+	}
+	n := 0
+	for _, d := range ts[i].deps {
+		for j := range ts {
+			if ts[j].id == d {
+				n += pathCount(ts, j)
+			}
+		}
+	}
+	return n
 }
